@@ -146,8 +146,8 @@ func normalizeBatchKeepingTies(l Layout, now int64, id int, orig, perm []MPoint)
 
 func TestC03(t *testing.T) {
 	RunProperty(t, Property[C03Case]{
-		ID: "C03",
-		Rule: "rapid-generated histories of single updates (ages across every retention boundary, incl. rejected ones: future, age >= max retention) and batches (mixtures of in-range, too-old, boundary and 5% future ages, duplicates, random order, best or named archive) on fresh and pre-populated files; unique-ish values make provenance readable; after every write the physical content of every archive must equal the model's routing+propagation, accept/reject verdicts must match, and the last batch re-run in a permuted order must give byte-identical files. Non-trivial: a batch mixing droppable and storable points, an age within +-1 of a retention boundary, a same-slot duplicate, or a rejected update. Distinct = hash of the case.",
+		ID:          "C03",
+		Rule:        "rapid-generated histories of single updates (ages across every retention boundary, incl. rejected ones: future, age >= max retention) and batches (mixtures of in-range, too-old, boundary and 5% future ages, duplicates, random order, best or named archive) on fresh and pre-populated files; unique-ish values make provenance readable; after every write the physical content of every archive must equal the model's routing+propagation, accept/reject verdicts must match, and the last batch re-run in a permuted order must give byte-identical files. Non-trivial: a batch mixing droppable and storable points, an age within +-1 of a retention boundary, a same-slot duplicate, or a rejected update. Distinct = hash of the case.",
 		Assumptions: []string{"zone Z7 clocks", "Z2: same-slot points with distinct timestamps are supplied in time order", "archive ids in range (Z8)"},
 		Gen: func(t *rapid.T) C03Case {
 			o := defaultLayoutOpts()
